@@ -46,7 +46,7 @@ CLAIMED = {
  "C03": dict(
    level="model_checking", design="§3 C03",
    technique="three exhaustive explorations of the implementation: bounded-exhaustive transaction bodies against a map model, crash-point/torn-write enumeration inside commit, and stateless interleaving exploration (controlled scheduler, deviation bound, happens-before caching) of a committer against readers",
-   text="(1) every transaction body of <=3 (4) operations (put, delete of 2 keys, put of the committed value, a scan inside the transaction) x {commit, rollback, abandon} x pre-states x {now, after reopen}, with caller buffers overwritten after each call, plus batch shapes (1, 3, beyond the 64 KiB log buffer, an entry larger than a record by far / by one byte / filling it exactly, empty value, commit on a closed engine); (2) every crash state inside a commit of 1/2/3/3x30KiB entries and inside the following write: recovered state holds all or none; (3) every interleaving (deviation bound 2 quick / 3 thorough) of a 2-key commit with Get(a);Get(b), Get(b);Get(a), a read-only transaction and a scan: nobody observes a strict subset. The scenarios also run free (no scheduler) in a -race build, 8 / 100 iterations each: a race report outside Close, a panic or a hang is a violation.",
+   text="(1) every transaction body of <=3 (4) operations (put, delete of 2 keys, put of an empty value, put of the committed value, a scan inside the transaction) x {commit, rollback, abandon} x pre-states x {now, after reopen}, with caller buffers overwritten after each call, plus batch shapes (1, 3, beyond the 64 KiB log buffer, an entry larger than a record by far / by one byte / filling it exactly, empty value, commit on a closed engine); (2) every crash state inside a commit of 1/2/3/3x30KiB entries and inside the following write: recovered state holds all or none; (3) every interleaving (deviation bound 2 quick / 3 thorough) of a 2-key commit with Get(a);Get(b), Get(b);Get(a), a read-only transaction and a scan: nobody observes a strict subset. The scenarios also run free (no scheduler) in a -race build, 8 / 100 iterations each: a race report outside Close, a panic or a hang is a violation.",
    note="Process-death crash model; one open known finding (torn write between the records of a batch)."),
  "C12": dict(
    level="model_checking", design="§3 C12",
